@@ -283,6 +283,200 @@ def script_item(rng):
     return rng.choice(STR_NAMES) + rng.choice([" ", " ", ";", "\n"])
 
 
+# ---- text metas, Port, TempoChange, SysEx / resets / universal SysEx / GS effects (pipeline model, step 5) ----
+META_NAMES = ["MetaText", "Text", "TEXT", "Copyright", "COPYRIGHT", "TrackName", "TRACK_NAME", "InstrumentName", "Lyric", "LYRIC",
+              "MAKER", "Maker", "CuePoint"]
+META_TEXTS = ["", "", "a", "abc", "Hello World", "\u3042\u3044\u3046", "\u65e5\u672c\u8a9e\u306e\u30c6\u30ad\u30b9\u30c8", "\u00e9", "\U0001F600",
+              "a{b}c", "x" * 126, "x" * 127, "x" * 128, "x" * 200, "\u3042" * 42, "\u3042" * 43, "\u3042" * 50, "\U0001F600" * 31, "\U0001F600" * 32,
+              "x" * 125 + "\u3042", "x" * 126 + "\u00e9", "x" * 124 + "\U0001F600", "x" * 123 + "\U0001F600", "line1\nline2", "a b", "12", "-5", "c d e",
+              "#?1", "\uff21\uff22", "\u3000", "\u00e9" * 63, "\u00e9" * 64, "a\"b", "(c)", "/* x */", "// y", "a,b", "1+2"]
+
+
+def meta_cmd(rng):
+    name = rng.choice(META_NAMES)
+    txt = rng.choice(META_TEXTS)
+    k = rng.random()
+    if k < 0.70:
+        form = rng.choice(['{"%s"}', '{"%s"}', "{%s}", "{%s}", "={%s}", ' = {"%s"}', '("%s")', "({%s})", ' "%s"', '="%s"', "( {%s} )",
+                           "{%s", '("%s', '"%s', "({%s}", "({%s},{z})", '{"%s"},1', "{%s} ", "{%s};", "\n{%s}", " (\n{%s}\n)"])
+        return name + form % txt
+    if k < 0.85:
+        return name + rng.choice(["(%s)", "=%s;", " %s ", "(%s", "(%s,2)"]) % rng.choice(["0", "1", "12", "-5", "127", "128", "255", "256", "$7F", "!4", "0x10", "99999"])
+    if k < 0.95:
+        return name + rng.choice([";", "();", "()", "=;", "(,)", "(;", " ;", "( );", "", "="])      # (a word after the name would be a variable)
+    return name + rng.choice(["{a}+{b}", "(A)", "({a}{b})", "(1+1)", "{a} - 1", "=Foo"])
+
+
+BYTE_VALUES = ["0", "1", "2", "15", "16", "127", "128", "255", "256", "257", "-1", "-128", "-256", "$7F", "$FF", "0x10", "!4", "!1", "65535", "99999999999"]
+
+
+def arg_form(rng, body, eq=True):
+    """the spellings read_upper_command accepts for an 'I' / 'A' argument list"""
+    forms = ["(%s)", "(%s)", "(%s)", "( %s )", "(%s", " (%s)", "(%s);"]
+    if eq:
+        forms += ["=%s;", "=%s ", " = %s ", "%s "]
+    return rng.choice(forms) % body
+
+
+def port_cmd(rng):
+    k = rng.random()
+    if k < 0.82:
+        return rng.choice(["Port", "PORT"]) + arg_form(rng, rng.choice(BYTE_VALUES))
+    if k < 0.96:
+        return rng.choice(["Port", "PORT"]) + rng.choice(["()", "(,)", ";", "(1,2)", "(,3)", "(1,,)", "=;", "(1:2)"])
+    return rng.choice(["Port", "PORT"]) + rng.choice(["(1+1)", "(A)", "({3})", "(-X)"])
+
+
+TEMPO_VALUES = ["120", "60", "80", "200", "300", "301", "10", "9", "1", "0", "-1", "-120", "500", "1000", "60000000", "60000001", "$78", "255", "256",
+                "16777215", "16777217", "2147483647"]
+TEMPO_LENS = ["!1", "!2", "!4", "!8", "!16", "!1.", "!2^4", "0", "1", "23", "24", "25", "96", "384", "100", "-1", "-96", "1000", "4000", "40000", "40001", "!1^1^1"]
+
+
+def tempo_change_cmd(rng):
+    k = rng.random()
+    name = "TempoChange"
+    if k < 0.25:
+        return name + arg_form(rng, rng.choice(TEMPO_VALUES))
+    if k < 0.50:
+        return name + arg_form(rng, rng.choice(TEMPO_VALUES) + rng.choice([",", ", ", " ,"]) + rng.choice(TEMPO_LENS))
+    if k < 0.86:
+        return name + arg_form(rng, rng.choice(TEMPO_VALUES) + rng.choice([",", ", "]) + rng.choice(TEMPO_VALUES) + rng.choice([",", ", ", " , "]) + rng.choice(TEMPO_LENS))
+    if k < 0.96:
+        return name + rng.choice(["()", ";", "(,)", "(,,)", "(120,,)", "(,80,!4)", "(1,2,3,4)", "(80,120,!1,5)", "=;", "(80:120:!4)", "(80,)"])
+    return name + rng.choice(["(80+1)", "(A,120,!4)", "(80,120,!4+1)", "(Tempo,90,!2)"])
+
+
+HEX_BYTES = ["00", "01", "7f", "7F", "80", "ff", "f0", "F0", "f7", "F7", "41", "10", "42", "12", "40", "100", "1ff", "0", "a", "-1", "-2", "$10", "0x7f", "", "g", "0xF0"]
+DEC_BYTES = ["0", "1", "127", "128", "255", "256", "240", "247", "$f0", "$F7", "$41", "16", "0x10", "", "-1", "300", "65535"]
+GS_NAMES = ["GSReverbMacro", "GSReverbCharacter", "GSReverbPRE_LPE", "GSReverbLevel", "GSReverbTime", "GSReverbFeedback", "GSReverbSendToChorus",
+            "GSChorusMacro", "GSChorusPRE_LPF", "GSChorusLevel", "GSChorusFeedback", "GSChorusDelay", "GSChorusRate", "GSChorusDepth",
+            "GSChorusSendToReverb", "GSChorusSendToDelay", "GS_RHYTHM"]
+
+
+def sysex_cmd(rng):
+    name = rng.choice(["SysEx", "SysEx", "SysEx", "PlayFrom.SysEx"])
+    hexm = rng.random() < 0.6
+    pool = HEX_BYTES if hexm else DEC_BYTES
+    n = rng.choice([0, 1, 2, 3, 5, 8, 8, 11, 20])
+    vals = [rng.choice(pool) for _ in range(n)]
+    k = rng.random()
+    if n >= 2 and k < 0.55:
+        # one or two checksum groups, sometimes unbalanced
+        i = rng.randrange(0, n)
+        j = rng.randrange(i, n)
+        vals[i] = "{" + rng.choice(["", "", " "]) + vals[i]
+        if rng.random() < 0.85:
+            vals[j] = vals[j] + rng.choice(["", "", " "]) + "}"
+        if rng.random() < 0.2 and j + 1 < n:
+            vals[j + 1] = "{" + vals[j + 1]
+            vals[-1] = vals[-1] + "}"
+    if rng.random() < 0.3 and n >= 1:
+        vals[0] = rng.choice(["f0", "F0"]) if hexm else rng.choice(["240", "$f0"])
+        if rng.random() < 0.7:
+            vals[-1] = vals[-1][:1].replace("{", "{") and (("f7" if hexm else "247") + ("}" if vals[-1].endswith("}") else ""))
+    sep = rng.choice([",", ",", ", ", " ,", " , "])
+    body = sep.join(vals)
+    if rng.random() < 0.05:
+        body += rng.choice([",", ",,", " X", ",A,1", "}", "{"])
+    return name + ("$" if hexm else "") + rng.choice(["=", "=", "=", " =", "", "= "]) + body + rng.choice([";", " ", "\n", ""])
+
+
+def reset_cmd(rng):
+    return rng.choice(["ResetGM", "ResetGS", "ResetXG"]) + rng.choice([";", ";", "\n", "()", "(0)", "(1)", " ;", "=1;", "(1,2)", "(", " 5 "])
+
+
+def sysex_command_cmd(rng):
+    k = rng.random()
+    if k < 0.5:
+        return "MasterVolume" + arg_form(rng, rng.choice(BYTE_VALUES + ["100", "64"]))
+    if k < 0.9:
+        return "MasterBalance" + arg_form(rng, rng.choice(["0", "1", "-1", "8191", "8192", "-8192", "-8193", "64", "127", "128", "16383", "16384", "$2000", "100000", "-100000"]))
+    return rng.choice(["MasterVolume", "MasterBalance"]) + rng.choice([";", "()", "(,)", "(1,2)", "=;"])
+
+
+def gs_cmd(rng):
+    k = rng.random()
+    if k < 0.45:
+        return rng.choice(GS_NAMES) + arg_form(rng, rng.choice(BYTE_VALUES))
+    if k < 0.60:
+        return "GSEffect" + arg_form(rng, rng.choice(["$30", "$31", "0", "1", "127", "128", "255", "256", "-1"]) + rng.choice([",", ", "]) + rng.choice(BYTE_VALUES), eq=False)
+    if k < 0.70:
+        return "GSEffect" + rng.choice(["(5)", "()", ";", "(1,2,3)", "(,7)"])
+    if k < 0.90:
+        n = rng.choice([12, 12, 12, 11, 13, 1, 0, 24])
+        return "GSScaleTuning" + arg_form(rng, ",".join(rng.choice(["0", "64", "-64", "1", "127", "128", "-1", "10", "255", "256"]) for _ in range(n)), eq=False)
+    if k < 0.96:
+        return rng.choice(GS_NAMES) + rng.choice([";", "()", "(,)", "(1,2)", "=;"])
+    return rng.choice(["CH(10) ", "CH(9) ", "CH(11) ", "CH(16) ", "CH(1) "]) + "GS_RHYTHM" + arg_form(rng, rng.choice(["0", "1", "2", "3", "255"]))
+
+
+def device_cmd(rng):
+    return "DeviceNumber" + arg_form(rng, rng.choice(["$10", "$11", "16", "17", "0", "127", "128", "255", "256", "-1", "", "1,2"])) + " " + \
+        rng.choice([reset_cmd(rng), gs_cmd(rng), "ResetGS;", "ResetXG;", "GSReverbMacro(1)"])
+
+
+def misc_noop_cmd(rng):
+    return rng.choice(["q2Add(3)", "System.q2Add=5;", "q2Add;", "SoundType({pico})", "SoundType=1;", 'SoundType("sc88")', "SoundType;"])
+
+
+def sys_cmd(rng):
+    """one command of the families the pipeline model gained last"""
+    k = rng.random()
+    if k < 0.22:
+        return meta_cmd(rng)
+    if k < 0.32:
+        return port_cmd(rng)
+    if k < 0.47:
+        return tempo_change_cmd(rng)
+    if k < 0.67:
+        return sysex_cmd(rng)
+    if k < 0.74:
+        return reset_cmd(rng)
+    if k < 0.82:
+        return sysex_command_cmd(rng)
+    if k < 0.93:
+        return gs_cmd(rng)
+    if k < 0.98:
+        return device_cmd(rng)
+    return misc_noop_cmd(rng)
+
+
+def pipe_program(rng, size=None):
+    """programs that USE the commands of sys_cmd: at the top level, on several tracks, inside loops, Sub blocks, tuplets,
+    macros (with and without arguments) and string variables"""
+    size = size or rng.choice([2, 4, 8, 14])
+    out = []
+    if rng.random() < 0.25:
+        out.append("TimeBase(%d)\n" % rng.choice([48, 96, 192, 480, 24, 100]))
+    notes = lambda: block(rng, 1, rng.randrange(0, 3), {"comments": False})
+    for _ in range(size):
+        k = rng.random()
+        c = sys_cmd(rng)
+        if k < 0.40:
+            out.append(c)
+        elif k < 0.50:
+            out.append(track_cmd(rng) + " " + c)
+        elif k < 0.60:
+            out.append("[" + rng.choice(["", "2", "3", "1", "0"]) + " " + notes() + c + " " + notes() + rng.choice(["", ": " + sys_cmd(rng) + " "]) + "]")
+        elif k < 0.68:
+            out.append("Sub{" + notes() + c + " " + notes() + "}")
+        elif k < 0.72:
+            out.append("{" + notes() + c + " c}" + rng.choice(["", "4", "2"]))
+        elif k < 0.82:
+            nm = rng.choice(["#A", "#B", "Mac", "X1"])
+            body = notes() + c.replace("//", "/ /") + " " + notes()
+            out.append(nm + "={" + body + "} " + rng.choice([nm, nm + " " + nm, "TR(2) " + nm, nm + "(5)", nm + "{zz}"]))
+        elif k < 0.88:
+            nm = rng.choice(["SA", "SB"])
+            out.append("Str " + nm + "={" + c.replace("//", "/ /") + " c} " + nm + " ")
+        elif k < 0.94:
+            out.append(item(rng, 2, {}))
+        else:
+            out.append(ext_item(rng, {}))
+        out.append(rng.choice([" ", " ", "\n", ";", "\t", "  ", " ; "]))     # ('|' after an argument is an operator: an expression)
+    return "".join(out)
+
+
 def ext_item(rng, feats):
     k = rng.random()
     if k < 0.30:
@@ -291,6 +485,8 @@ def ext_item(rng, feats):
         return res_cmd(rng)
     if k < 0.62 and feats.get("play", True):
         return script_item(rng)
+    if k < 0.70 and feats.get("sys", True):
+        return sys_cmd(rng)
     return item(rng, feats.get("depth", 2), feats)
 
 
